@@ -362,5 +362,31 @@ def run(F, rep, tier):
             shutil.rmtree(tmp, ignore_errors=True)
     else:
         rep.note('R1.5 (compile-fail witnesses) runs in the thorough tier only')
+    # ---------------- R1.10
+    rep.rule('R1.10', 'a nested write reaches the addressed slot itself: in set_index / modify_existing_index / modify_every_existing_index the '
+             '&mut Obj handed to the recursive step is a reference into the container\'s own storage (pythonic_mut, IndexMut, HashMap '
+             'get_mut / entry get_mut / vacant insert, iter_mut) - never a fresh clone written back afterwards and never the dict\'s shared '
+             'default value')
+    WALK = ('eval::set_index', 'eval::modify_existing_index', 'eval::modify_every_existing_index')
+    STORAGE = ('pythonic_mut', 'index_mut', 'get_mut', 'insert', 'next', 'or_insert', 'or_insert_with', 'into_mut', 'last_mut', 'first_mut', 'deref_mut', 'make_mut')
+    n110 = 0
+    for w in WALK:
+        if not F.has_fn(w):
+            rep.error('R1.10', 'missing ' + w)
+            continue
+        wb = F.body(w)
+        for c in wb.calls:
+            if c.target not in WALK:
+                continue
+            n110 += 1
+            og = origins(wb, c.args[0], passthru=('branch',))
+            og = {o for o in og if not (o[0] == 'agg' and o[1] == 'std::result::Result' and o[2] == 'Err')}      # the diverging arm of `match .. { None => Err(..)? }`
+            bad = [o for o in og if not (o[0] == 'call' and o[1].rsplit('::', 1)[-1] in STORAGE)]
+            if og and not bad:
+                rep.ok('R1.10', '%s -> %s' % (w.rsplit('::', 1)[-1], sorted({o[1].rsplit('::', 1)[-1] for o in og})), 'slot is a reference into the container')
+            else:
+                kind = 'the shared default of the dict' if any(o[0] == 'payload' and 'Dict' in str(o[1:4]) for o in bad) else ('a copy of the element' if any(o[0] == 'call' and o[1].endswith('clone') for o in bad) else 'a value that is not the stored element')
+                rep.viol('R1.10', '%s|slot|%s' % (w, sorted(str(o[:2])[:50] for o in bad)[:1]), '%s descends into %s (%s): the write does not land in the addressed slot - it changes a value shared by every other absent key, or works on a second copy that keeps the collection shared' % (w, kind, sorted(str(o[:2]) for o in bad)[:2]), c.loc())
+    rep.floor('R1.10', 'recursive descents', n110, 14)
     rep.undecided += ['clause (c): which index/key a type-correct mutation addresses and which value it writes']
     return META
